@@ -78,6 +78,11 @@ func judgeC02(c C02Case) *Fail {
 	v := viewReq(parseReqM(body))
 	if first.OK {
 		st.inc("C02:accepted")
+		for _, l := range c.Labels {
+			if l == "cancellingPair" {
+				st.inc("gen:C02:cancellingPair-accepted")
+			}
+		}
 		if usesRandomOrBigMaps(v) {
 			st.nontrivial("C02", c.Req)
 			st.sample("C02", M{"request": parseReqM(body)})
@@ -103,6 +108,9 @@ func c02Opts(g G) GenOpts {
 func genC02(t *rapid.T) C02Case {
 	g := G{t}
 	gr := genRequest(t, c02Opts(g))
+	if g.Chance(1, 5) && cancellingPair(gr.Req) {
+		gr.Labels = append(gr.Labels, "cancellingPair")
+	}
 	valid := gr // hostile relatives are derived from the valid request
 	if g.Chance(1, 4) {
 		gr = mutateConstraint(t, gr)
@@ -122,6 +130,43 @@ func genC02(t *rapid.T) C02Case {
 		}
 	}
 	return c
+}
+
+// cancellingPair: in every alternative the first two criteria get values of magnitude 2^40 that cancel in a
+// signed sum (B and -B for two criteria of one type, B and B for a gain and a cost), next to the small values of
+// the remaining criteria: (B + x) - B and (B - B) + x differ by far more than the 1e-8 rounding of the response,
+// so any summation whose ORDER is not fixed (map iteration) shows in the bytes (answers seeded O02).
+// Needs three criteria; declared ranges of the two criteria are widened so that the request stays valid.
+func cancellingPair(req M) bool {
+	cs := asL(req["criteria"])
+	if len(cs) < 3 {
+		return false
+	}
+	c0, c1 := asM(cs[0]), asM(cs[1])
+	if c0 == nil || c1 == nil {
+		return false
+	}
+	id0, _ := c0["id"].(string)
+	id1, _ := c1["id"].(string)
+	isCost := func(c M) bool { t, _ := c["type"].(string); return t == "cost" }
+	big := float64(int64(1) << 40)
+	second := -big
+	if isCost(c0) != isCost(c1) {
+		second = big
+	}
+	for _, c := range []M{c0, c1} {
+		if vr := asM(c["valuesRange"]); vr != nil {
+			vr["min"], vr["max"] = -2*big, 2*big
+		}
+	}
+	for _, a := range asL(req["knownAlternatives"]) {
+		cm := asM(asM(a)["criteria"])
+		if cm == nil {
+			return false
+		}
+		cm[id0], cm[id1] = big, second
+	}
+	return true
 }
 
 // commaMergedIds: the same problem with two criterion ids merged into one id containing the separator the
